@@ -801,6 +801,23 @@ def _filter_exec(ctx):
         return None
     decide("max_capacity", t_max)
 
+    def t_hint():
+        for nm, vs in lists.items():
+            srt = sorted(set(vs), key=lambda v: okey[v])
+            for n in (0, 1, 3, 50, 500, 1558, 1559, 5000):
+                r, _ = call(SL + "::upper_limit_for_number_of_codewords", [sl(vs), n])
+                if not srt:
+                    want = None
+                elif len(srt) == 1:
+                    want = t["data"][srt[0]]
+                else:
+                    hit = next((v for v in srt if t["capacity"][v]["min"] >= n), srt[-1])
+                    want = t["data"][hit]
+                if opt(r) != want:
+                    return "upper_limit_for_number_of_codewords(%d) on the %s list is %r, expected %r" % (n, nm, opt(r), want)
+        return None
+    decide("upper_limit", t_hint)
+
     def t_iter(fn):
         def thunk():
             for nm, vs in lists.items():
